@@ -2,7 +2,7 @@
 routing in the templates, one predicate everywhere, set semantics of tag sets."""
 import ast
 
-from ..astq import conds, decision_list, facts_of, is_name, is_self_attr, literals, parse_fixture, returns_of, split_tests
+from ..astq import conds, decision_list, facts_of, is_name, is_self_attr, literals, parse_fixture, returns_of, returns_with_conds, split_tests
 from ..core import AnalysisError, norm, walk_local
 from ..xform import query as Q
 from ..xform.terms import (Copy, GenericVisit, Ident, In, InList, Lib, Node, Raise, Rec, Star, SymStr, Visit, children, walk)
@@ -159,7 +159,7 @@ def run(repo, chk):
     arg = gt.node.args.vararg.arg if gt.node.args.vararg else "tags"
     lists = fg.bound_to(f"[getattr(tag, tg) if isinstance(tg, str) else tg for tg in {arg}]")
     V = lists[0] if lists else "<the resolved tags>"
-    ok = len(lists) == 1 and fg.has(f"return {V}[0]", exactly=[f"len({V}) == 1"]) and fg.has(f"return TagSet({V})", exactly=[f"len({V}) != 1"]) and len(returns_of(gt.node)) == 2
+    ok = len(lists) == 1 and fg.has(f"return {V}[0]", exactly=[f"len({V}) == 1"]) and fg.has(f"return TagSet({V})", exactly=[f"len({V}) != 1"]) and len(returns_with_conds(gt.node)) == 2
     chk.ob("R11.2", "tags.get_tags:single-vs-set", ok, gt.where,
            "get_tags returns the tag itself for one name and a TagSet for several")
 
